@@ -646,9 +646,11 @@ OBLIGATIONS = [
     Ob("tuple_rank12", _ob_tuple, timeout=400, functions=_TUPLE_FUNCS, replay=_replay_tuple,
        partition=_tuple_parts([1, 2]),
        outside="general slices in several tuple positions at once; rank > 2 (thorough tier)"),
-    Ob("tuple_rank34", _ob_tuple, timeout=1500, tiers=("thorough",), functions=_TUPLE_FUNCS,
-       replay=_replay_tuple, partition=_tuple_parts([3, 4]),
-       outside="general slices in several tuple positions at once"),
+    Ob("tuple_rank34", _ob_tuple, timeout=1800, tiers=("thorough",), functions=_TUPLE_FUNCS,
+       replay=_replay_tuple,
+       partition=_tuple_parts([3]) + [p for p in _tuple_parts([4]) if p[2] is None or p[1] <= 2],
+       outside="general slices in several tuple positions at once; rank 4 with a general slice only "
+               "for tuples of at most 2 entries (longer rank-4 tuples use ints / full slices / Ellipsis)"),
     Ob("window", _ob_window, timeout=200, functions=["nixio.data_array.DataArray.get_slice",
                                                    _DV + "__init__", _DV + "data_extent",
                                                    _DV + "_read_data", _DV + "_write_data"],
